@@ -67,6 +67,15 @@ package stats
 //@   ensures remote_received: len(reports) == 1 && reports[0].SSRC == r.ssrc && latestStats.remoteInboundFirstSequenceNumberInitialized ==>
 //@        result.RemoteInboundRTPStreamStats.PacketsReceived == uint64(ite(int64(reports[0].LastSequenceNumber) - latestStats.remoteInboundFirstSequenceNumber + 1 - int64(reports[0].TotalLost) > 0,
 //@             int64(reports[0].LastSequenceNumber) - latestStats.remoteInboundFirstSequenceNumber + 1 - int64(reports[0].TotalLost), 0))
+//@   # any number of blocks in any order: the last block about this SSRC decides the loss figures, wherever the foreign blocks sit
+//@   ensures last_matching_report_wins: forall j int :: 0 <= j && j < len(reports) && reports[j].SSRC == r.ssrc && (forall k int :: j < k && k < len(reports) ==> reports[k].SSRC != r.ssrc) ==>
+//@           result.RemoteInboundRTPStreamStats.PacketsLost == int64(reports[j].TotalLost)
+//@        && result.RemoteInboundRTPStreamStats.FractionLost == float64(reports[j].FractionLost) / 256.0
+//@        && result.RemoteInboundRTPStreamStats.Jitter == float64(reports[j].Jitter) / r.clockRate
+//@   loop 1 invariant last_done: forall j int :: 0 <= j && j <= rangeindex && reports[j].SSRC == r.ssrc && (forall k int :: j < k && k <= rangeindex ==> reports[k].SSRC != r.ssrc) ==>
+//@           latestStats.RemoteInboundRTPStreamStats.PacketsLost == int64(reports[j].TotalLost)
+//@        && latestStats.RemoteInboundRTPStreamStats.FractionLost == float64(reports[j].FractionLost) / 256.0
+//@        && latestStats.RemoteInboundRTPStreamStats.Jitter == float64(reports[j].Jitter) / r.clockRate
 //@   loop 1 invariant foreign: (forall i int :: 0 <= i && i < len(reports) ==> reports[i].SSRC != r.ssrc) ==> latestStats == old(latestStats)
 //@   loop 1 invariant local: latestStats.InboundRTPStreamStats == old(latestStats.InboundRTPStreamStats) && latestStats.OutboundRTPStreamStats == old(latestStats.OutboundRTPStreamStats)
 //@        && latestStats.RemoteOutboundRTPStreamStats == old(latestStats.RemoteOutboundRTPStreamStats) && latestStats.inboundSequencerNumber == old(latestStats.inboundSequencerNumber)
@@ -173,6 +182,19 @@ package stats
 //@   ensures single_nack: len(v.pkts) == 1 && typeis(v.pkts[0], "*rtcp.TransportLayerNack") ==> result.InboundRTPStreamStats.NACKCount ==
 //@        latestStats.InboundRTPStreamStats.NACKCount + ite(contains(v.pkts[0].DestinationSSRC(), r.ssrc), uint32(1), uint32(0))
 //@        && result.lastSenderReports == latestStats.lastSenderReports
+//@   # a full intra request / picture loss indication counts exactly when one of its destination SSRCs (for FIR: the FIR entries) is this stream
+//@   ensures single_fir: len(v.pkts) == 1 && typeis(v.pkts[0], "*rtcp.FullIntraRequest") ==> result.InboundRTPStreamStats.FIRCount ==
+//@        latestStats.InboundRTPStreamStats.FIRCount + ite(contains(v.pkts[0].DestinationSSRC(), r.ssrc), uint32(1), uint32(0))
+//@        && result.InboundRTPStreamStats.PLICount == latestStats.InboundRTPStreamStats.PLICount && result.InboundRTPStreamStats.NACKCount == latestStats.InboundRTPStreamStats.NACKCount
+//@   ensures single_pli: len(v.pkts) == 1 && typeis(v.pkts[0], "*rtcp.PictureLossIndication") ==> result.InboundRTPStreamStats.PLICount ==
+//@        latestStats.InboundRTPStreamStats.PLICount + ite(contains(v.pkts[0].DestinationSSRC(), r.ssrc), uint32(1), uint32(0))
+//@        && result.InboundRTPStreamStats.FIRCount == latestStats.InboundRTPStreamStats.FIRCount && result.InboundRTPStreamStats.NACKCount == latestStats.InboundRTPStreamStats.NACKCount
+//@   loop 1 invariant single_fir: rangeindex >= 0 && len(v.pkts) == 1 && typeis(v.pkts[0], "*rtcp.FullIntraRequest") ==> latestStats.InboundRTPStreamStats.FIRCount ==
+//@        old(latestStats.InboundRTPStreamStats.FIRCount) + ite(contains(v.pkts[0].DestinationSSRC(), r.ssrc), uint32(1), uint32(0))
+//@        && latestStats.InboundRTPStreamStats.PLICount == old(latestStats.InboundRTPStreamStats.PLICount) && latestStats.InboundRTPStreamStats.NACKCount == old(latestStats.InboundRTPStreamStats.NACKCount)
+//@   loop 1 invariant single_pli: rangeindex >= 0 && len(v.pkts) == 1 && typeis(v.pkts[0], "*rtcp.PictureLossIndication") ==> latestStats.InboundRTPStreamStats.PLICount ==
+//@        old(latestStats.InboundRTPStreamStats.PLICount) + ite(contains(v.pkts[0].DestinationSSRC(), r.ssrc), uint32(1), uint32(0))
+//@        && latestStats.InboundRTPStreamStats.FIRCount == old(latestStats.InboundRTPStreamStats.FIRCount) && latestStats.InboundRTPStreamStats.NACKCount == old(latestStats.InboundRTPStreamStats.NACKCount)
 //@   loop 1 invariant remote_untouched: latestStats.OutboundRTPStreamStats == old(latestStats.OutboundRTPStreamStats) && latestStats.RemoteInboundRTPStreamStats == old(latestStats.RemoteInboundRTPStreamStats)
 //@        && latestStats.RemoteOutboundRTPStreamStats == old(latestStats.RemoteOutboundRTPStreamStats) && latestStats.inboundSequencerNumber == old(latestStats.inboundSequencerNumber)
 //@   loop 1 invariant first_not_yet: rangeindex < 0 ==> latestStats == old(latestStats)
